@@ -162,6 +162,17 @@ int main(int argc, char** argv) {
     bool ok = quiet && g_seen.size() == 2 && g_seen[0] == 1 && g_seen[1] == 2 && g_nt == 0;
     report("order.k" + std::to_string(k), ok, "C05,C13", "seen=[" + vs(g_seen) + "] nt=" + std::to_string(g_nt));
   }
+  // every arrangement of up to four deferred E around one F: the pass after G re-defers the E before F, handles F, and must re-offer ALL E in
+  // arrival order - also when two or more of them sit on the same side of F (the order must be restored stably)
+  for (int before = 0; before <= 3; ++before) for (int after = 0; after <= 3 - before; ++after) {
+    g_seen.clear(); g_nt = 0; M m; m.start(); int id = 0;
+    for (int i = 0; i < before; ++i) m.process_event(E(++id));
+    m.process_event(F());
+    for (int i = 0; i < after; ++i) m.process_event(E(++id));
+    m.process_event(G());
+    bool ok = (int)g_seen.size() == id && g_nt == 0; for (int i = 0; i < (int)g_seen.size(); ++i) ok = ok && g_seen[i] == i + 1;
+    report("order.around-a-handled-event." + std::to_string(before) + "-before." + std::to_string(after) + "-after", ok, "C05,C13", "seen=[" + vs(g_seen) + "] nt=" + std::to_string(g_nt));
+  }
 #if IS_MP11   /* back/back11: deferral contradicted by a sibling region's transition is a documented limitation (outside C05's quantifier) */
   { g_seen.clear(); g_nt = 0; R m; m.start();
     m.process_event(E(5));                                   // deferred by B0 although A0 could handle it: deferred for all regions
